@@ -141,12 +141,14 @@ int main(int argc, char **argv)
 			if (op == "case") {
 				l_Case = std::stol(a.pos.at(0));
 				Out("case " + a.pos.at(0));
+				l_Out->flush(); // a crash inside the case must not lose the case marker (runner attributes the CRASH to it)
 			} else if (op == "obs") {
 				l_ObsAll = false;
 				l_Obs = a.pos;
 			} else if (op == "end") {
 				for (auto& f : CaseEnds()) f();
 				Out("end");
+				l_Out->flush();
 			} else {
 				auto it = Ops().find(op);
 				if (it == Ops().end()) { std::cerr << "unknown op '" << op << "' line " << lineno << "\n"; return 2; }
